@@ -285,9 +285,24 @@ def duplex_flow(ctx, pid, quick, clauses, seed):
     off = seed % step
     jobs += [('cover', [(l, None) for l in sc], st)
              for sc, st in adj[off::step][:keep]]
+    # every application operation in every context (own send / receive
+    # state, data queued behind the window, the peer's send state): the
+    # shortest behaviour ENDING with it, then everything in flight is
+    # delivered.  close() behind a queued EOF, write_eof() behind queued data
+    # and the like exist only in passing and leave no trace in a final state
+    tg = f'{pid.lower()}_lcctx_{os.getpid()}'
+    cfg, d = c09.write_cfg(f'_{tg}.cfg', dict(flow, MaxOps=6),
+                           invariants=['EmitOpCtx'], view=True)
+    ctxs, res = tlc.bfs_scripts(c09.SPEC, 'Lifecycle', cfg, tg)
+    ctx.require_tlc_ok(f'Lifecycle flow (operation contexts) for {pid}', res)
+    tlc.cleanup(tg)
+    os.remove(os.path.join(c09.SPEC, cfg))
+    ctx.require(len(ctxs) > 30, f'too few operation contexts: {len(ctxs)}')
+    jobs += [('opctx', [(l, None) for l in sc], None) for sc, _ in ctxs]
     total = 0
     for kind, steps, final in jobs:
-        r = lifecycle.replay(steps, [1], [], final=final, win=2)
+        r = lifecycle.replay(steps, [1], [], final=final, win=2,
+                             prefix=kind == 'opctx')
         total += 1
         ctx.count(('duplex', kind, tuple(map(str, r['script']))),
                   nontrivial=len(r['script']) > 3)
@@ -297,7 +312,8 @@ def duplex_flow(ctx, pid, quick, clauses, seed):
                            'clauses': sorted({c.split(':')[0] for c in mine})},
                           '; '.join(mine[:3]),
                           replay={'kind': 'duplex', 'script': r['script'],
-                                  'chans': [1], 'reject': [], 'win': 2})
+                                  'chans': [1], 'reject': [], 'win': 2,
+                                  'prefix': kind == 'opctx'})
         elif r['diverged']:
             ctx.divergence(f'duplex {kind}: {r["diverged"]} script='
                            f'{r["script"]}')
@@ -315,7 +331,8 @@ def duplex_replay(ctx, rp, sig, clauses):
             steps += [(['deliver', l[1], t, 0], None) for t in l[3]]
         else:
             steps.append((l, None))
-    r = lifecycle.replay(steps, rp['chans'], rp['reject'], win=rp['win'])
+    r = lifecycle.replay(steps, rp['chans'], rp['reject'], win=rp['win'],
+                         prefix=rp.get('prefix', False))
     mine = [b for b in r['l1'] if b.split(':')[0] in clauses]
     print('l1:', r['l1'])
     ctx.count(('replay', 'duplex'))
